@@ -16,7 +16,7 @@ RULE = (
     "assign'. non-trivial = history with a targeted update that left another node outdated and a "
     "restore of a state saved under a different dirty set; distinct by (program, history) hash"
 )
-REQUIRED = ["G1_uptodate_equals_fromscratch", "G3_targeted_update_closure_uptodate", "I1_uptodate_equals_fromscratch", "I1_input_holds_assigned_value",
+REQUIRED = ["I6_coherent_after_failed_update", "G1_uptodate_equals_fromscratch", "G3_targeted_update_closure_uptodate", "I1_uptodate_equals_fromscratch", "I1_input_holds_assigned_value",
             "I2_full_update_leaves_nothing_outdated", "I3_targeted_update_closure_uptodate",
             "I4_evaluation_counts", "I5_state_roundtrip"]
 ANCHORS = ["model/model.py:Model.update", "model/nodes.py:Node.flag_outdated", "model/nodes.py:Calc.update",
@@ -31,7 +31,7 @@ TIMEOUT = {"quick": 1500, "thorough": 10800}
 def make_program(seed, idx, big=False):
     for attempt in range(50):
         rng = rng_for(seed, "c01-prog", idx, attempt)
-        desc = gen_program(rng, n_units=(3, 18 if big else 12), p_user_lp=0.1)
+        desc = gen_program(rng, n_units=(3, 18 if big else 12), p_user_lp=0.1, p_fragile=0.3)
         if sane(desc):
             return desc, rng
     raise RuntimeError("no sane program")
